@@ -64,3 +64,109 @@ func verifC18TimedCopy(kinds int) {
 }
 
 func VH_C18_timedcopy() { verifC18TimedCopy(4) }
+
+// TCP: arbitrary authenticated plaintext in the address header never panics; the status is
+// ERR_READ_ADDRESS exactly when the header is not a well-formed SOCKS address
+func VH_C18_tcp_header() {
+	cl, specs, entries := verifMakeList(1, 1, false)
+	key := verifKey(specs[0].cipher, verifSecrets[specs[0].secret])
+	n := verifChoice("hlen", 9) // 0..8 header bytes, then EOF
+	hdr := verifBytes("hdr", n)
+	var stream []byte
+	if n > 0 {
+		stream = verifClientStream(key, hdr)
+	} else {
+		// salt and an empty first chunk cannot be produced by the writer: just the salt
+		stream = verifClientStream(key, []byte{9})[:key.SaltSize()]
+	}
+	verifAssume(!entries[0].SaltGenerator.IsServerSalt(stream[:key.SaltSize()]))
+	conn := &verifStreamConn{name: "client", remote: &net.TCPAddr{IP: net.IPv4(203, 0, 113, 5), Port: 50000}}
+	conn.reads = []verifSRead{{data: stream}}
+	dialer := &verifDialer{conn: &verifStreamConn{name: "target", remote: &net.TCPAddr{IP: net.IPv4(93, 184, 216, 34), Port: 80}}}
+	h := NewStreamHandler(NewShadowsocksStreamAuthenticator(cl, nil, nil, nil), tcpReadTimeout)
+	h.SetTargetDialer(dialer)
+	m := &verifTCPMetrics{}
+	h.Handle(contextBackground(), conn, m)
+	verifAssert("C18.tcp-header.closed-once", len(m.closed) == 1 && conn.closed == 1)
+	if n >= 7 {
+		wellFormed := verifAny(hdr[0] == 1, verifAll(hdr[0] == 3, int(hdr[1]) <= n-4))
+		if wellFormed {
+			verifAssert("C18.tcp-header.dialed", len(dialer.dials) == 1)
+			verifReach("C18.tcp-header.dialed", true)
+		}
+	}
+	if len(dialer.dials) == 0 && n > 0 {
+		verifAssert("C18.tcp-header.status", m.closed[0] == "ERR_READ_ADDRESS" || m.closed[0] == "ERR_CIPHER")
+		verifReach("C18.tcp-header.bad-address", m.closed[0] == "ERR_READ_ADDRESS")
+	}
+}
+
+// UDP: arbitrary authenticated plaintext never panics and is forwarded only with a valid header
+func VH_C18_udp_plaintext() {
+	verifResetNet()
+	cl, specs, _ := verifMakeList(1, 1, false)
+	key := verifKey(specs[0].cipher, verifSecrets[specs[0].secret])
+	um := &verifUDPMetrics{}
+	h := NewPacketHandler(defaultNatTimeout, cl, um, nil)
+	client := &verifPacketConn{name: "client"}
+	n := []int{0, 1, 3, 4, 6, 7, 10}[verifChoice("ptlen", 7)]
+	pt := verifBytes("pt", n)
+	client.reads = []verifRead{{data: verifPack(key, pt), addr: verifClientAddrs[0]}}
+	h.Handle(client)
+	verifQuiesce()
+	forwarded := len(verifTargets) == 1 && len(verifTargets[0].writes) == 1
+	if forwarded {
+		verifAssert("C18.udp-plaintext.header-well-formed", n >= 4 && verifAny(verifAll(pt[0] == 1, n >= 7), verifAll(pt[0] == 3, int(pt[1]) <= n-4), verifAll(pt[0] == 4, n >= 19)))
+		verifReach("C18.udp-plaintext.forwarded", true)
+	}
+	verifAssert("C18.udp-plaintext.loop-survives", client.readPos == 1)
+	verifReach("C18.udp-plaintext.dropped", !forwarded)
+}
+
+// a failure while handling one connection does not stop the listener or affect others, and
+// serving stops only after all running handlers have returned
+func VH_C18_streamserve_isolation() {
+	conns := []*verifStreamConn{{name: "c0"}, {name: "c1"}, {name: "c2"}}
+	next := 0
+	faultAt := verifChoice("accept-fault-at", 4)
+	accept := func() (transportStreamConn, error) {
+		if next == faultAt && faultAt < 3 {
+			faultAt = -1
+			return nil, errVerifFault // a transient accept error must not stop the loop
+		}
+		if next >= len(conns) {
+			return nil, net.ErrClosed
+		}
+		c := conns[next]
+		next++
+		return c, nil
+	}
+	panicOn := verifChoice("panic-on", 4)
+	handled := 0
+	release := make(chan struct{})
+	handle := func(ctx contextContext, c transportStreamConn) {
+		if c == transportStreamConn(conns[2]) {
+			<-release // a slow handler: StreamServe must wait for it
+		}
+		handled++
+		if panicOn < 3 && c == transportStreamConn(conns[panicOn]) {
+			panic("handler failure")
+		}
+	}
+	done := make(chan struct{}, 1)
+	go func() {
+		StreamServe(accept, handle)
+		done <- struct{}{}
+	}()
+	verifQuiesce()
+	verifAssert("C18.serve.waits-for-running-handlers", len(done) == 0)
+	close(release)
+	verifQuiesce()
+	verifAssert("C18.serve.returns-after-handlers", len(done) == 1)
+	verifAssert("C18.serve.all-accepted-handled", handled == 3)
+	for _, c := range conns {
+		verifAssert("C18.serve.every-conn-closed", c.closed == 1)
+	}
+	verifAssert("C18.serve.nothing-left", verifBlockedIn("StreamServe") == 0)
+	verifReach("C18.serve.with-panic", panicOn < 3)
+}
